@@ -8,11 +8,14 @@ import (
 	"encoding/json"
 	"fmt"
 	"net"
+	"strings"
 	"sync"
 
 	"github.com/coredhcp/coredhcp/handler"
 	"github.com/insomniacslk/dhcp/dhcpv6"
 
+	"verifmc/checks/c16"
+	"verifmc/conc"
 	"verifmc/ev"
 	"verifmc/pkt"
 	"verifmc/reg"
@@ -261,7 +264,7 @@ func run(r *ev.Run) {
 	if !r.Quick() {
 		maxDepth = 4
 	}
-	r.Rule(fmt.Sprintf("E3 complete product through the real HandleMsg6: message type byte 0..255 x client-id{absent,present} x rapid-commit x relay depth 0..%d x 9 per-layer variants (link/peer from {::,global,link-local}, {no option, Interface-ID, Interface-ID+Remote-ID}, distinct per layer) x peer{global, fe80::99, fe80:0:0:1::1, febf:ffff::1 (all link-local, fe80::/10), fec0::1 (not link-local)} x listener{bound,unbound} x control message{nil,ifindex} x chain{empty, option-adding handler}; plus replies of 1.2-20 KiB (long Interface-ID / client identifier) on listeners bound to every host interface, Relay-Reply as outer type, mixed nesting, relay without inner message, every truncation of 2 seeds. Oracle on raw bytes with an independent parser. Class = chain/depth/type/cid/rapid/#replies/reply type.", maxDepth))
+	r.Rule(fmt.Sprintf("E3 complete product through the real HandleMsg6: message type byte 0..255 x client-id{absent,present} x rapid-commit x relay depth 0..%d x 9 per-layer variants (link/peer from {::,global,link-local}, {no option, Interface-ID, Interface-ID+Remote-ID}, distinct per layer) x peer{global, fe80::99, fe80:0:0:1::1, febf:ffff::1 (all link-local, fe80::/10), fec0::1 (not link-local)} x listener{bound,unbound} x control message{nil,ifindex} x chain{empty, option-adding handler}; plus replies of 1.2-20 KiB (long Interface-ID / client identifier) on listeners bound to every host interface, Relay-Reply as outer type, mixed nesting, relay without inner message, every truncation of 2 seeds. E2: two datagrams in flight at once (relayed through different relay agents / direct with forced buffer reuse) through the real Serve loop under all schedules up to the preemption bound. Oracle on raw bytes with an independent parser. Class = chain/depth/type/cid/rapid/#replies/reply type.", maxDepth))
 	r.Assume("reply captured at WriteTo (no socket); mixed Relay-Forward/Relay-Reply nesting and requests without client-id are enumerated but only checked for 'no reply to unsupported types'")
 	// link-local unicast is fe80::/10: also sources with bits set between /10 and /64
 	// source ports: client port, server/relay port, an ephemeral one, the extremes
@@ -365,6 +368,12 @@ func run(r *ev.Run) {
 			}
 		}
 	}
+	// two datagrams in flight at once (relayed through different relay agents; direct ones with
+	// forced buffer reuse): every reply mirrors the layers of ITS request, under all schedules
+	// up to the preemption bound
+	c16.RunSpecs(r, "C12", func(sp conc.Spec) bool {
+		return sp.Proto == 6 && (strings.Contains(sp.Name, "S5c-") || strings.Contains(sp.Name, "S5-"))
+	})
 	// relay-forward without a relay message option; nested relay whose inner is empty
 	for depth := 1; depth <= 2; depth++ {
 		var inner []byte
